@@ -127,10 +127,12 @@ func c09FileRL(c *Ctx, key string, fset *token.FileSet, af *ast.File, info *type
 			return true
 		}
 		role, objPath := identRole(id, parents[id], info, pkg)
+		// the decorated package may itself live in a vendor directory: paths are reported without the prefix
+		expLocal := stripVendorPath(localPath)
 		if role == "local" {
-			objPath = localPath
+			objPath = expLocal
 		}
-		rec := resolveRec{Role: role, ObjPath: objPath, Local: localPath, Ast: "<n/a>", Name: id.Name, RL: resolveLocal}
+		rec := resolveRec{Role: role, ObjPath: objPath, Local: expLocal, Ast: "<n/a>", Name: id.Name, RL: resolveLocal}
 		if dn, ok := dt.Dst.Nodes[id].(*dst.Ident); ok {
 			rec.Types = dn.Path
 			if role == "pkgname" || role == "selector" && false {
@@ -225,6 +227,24 @@ func checkC09(c *Ctx) {
 			tr.Add(goastVerdict(af2, u.fset, names))
 		}
 		c.Sample(obj{"scenario": sc.Name, "dot_free": sc.DotFree, "goast_must_refuse": sc.GoastErr})
+	}
+	// packages that live in a vendor directory themselves, decorated as the local package
+	{
+		u := newUniverse(libPackages()...)
+		names := u.packageNames()
+		for _, lp := range libPackages() {
+			if !strings.Contains(lp.Path, "/vendor/") {
+				continue
+			}
+			pkg, info, files, err := u.Check(lp.Import)
+			if err != nil {
+				c.Infra("vendored package " + lp.Import + " does not type-check: " + err.Error())
+				return
+			}
+			for _, af := range files {
+				c09File(c, "vendored-local|"+lp.Path, u.fset, af, info, pkg, lp.Path, names, false, tr)
+			}
+		}
 	}
 	// standard-library packages type-checked from source
 	stdPkgs := []string{"strings", "bufio", "sort", "net/url"}
